@@ -141,6 +141,11 @@ type Solver struct {
 	SolverNs  int64
 	GetValueNs int64
 	Errors    []string
+	// Broken is set as soon as a solver process answers with an (error …) line: a rejected push / pop /
+	// define leaves the assertion stack out of step with the engine's bookkeeping, so every later answer
+	// of this process is untrustworthy. From then on every check is "unknown" until the worker restarts
+	// the solver (after the current path).
+	Broken bool
 	XChecks   int
 	XDisagree []string
 	timeoutMs int
@@ -197,6 +202,7 @@ func (s *Solver) Close() {
 // Restart kills the processes and starts fresh ones (all definitions lost).
 func (s *Solver) Restart() error {
 	s.Close()
+	s.Broken = false
 	return s.start()
 }
 
@@ -307,8 +313,18 @@ func (s *Solver) Assert(t *Term) {
 func (s *Solver) checkOn(p *proc) string {
 	p.send("(check-sat)")
 	r := p.readLine()
+	if s.Broken {
+		for strings.HasPrefix(r, "(error") || strings.HasPrefix(r, "unsupported") {
+			if p.dead {
+				return "unknown"
+			}
+			r = p.readLine()
+		}
+		return "unknown"
+	}
 	for strings.HasPrefix(r, "(error") || strings.HasPrefix(r, "unsupported") {
 		s.Errors = append(s.Errors, p.name+": "+r)
+		s.Broken = true
 		if p.dead {
 			return "unknown"
 		}
